@@ -11,6 +11,8 @@ rm -rf "$S-evidence-backup" && cp -r "$V/evidence" "$S-evidence-backup"
 restore() {
   (cd "$V" && python3 -c "from vlib.common import build_go, make_overlay; build_go(); from vlib import c14, regen_re; c14.build_vaccess(); c14.regenerate(make_overlay()); regen_re.build_regex_tables()" >/dev/null 2>&1)
   sed -i "s#=> $S#=> /repo#" "$V/harness/go.mod"
+  # keep what the alarms pointed at (the evidence directory of the trial is discarded)
+  rm -rf "$S-replays"; [ -d "$V/evidence/replays" ] && cp -r "$V/evidence/replays" "$S-replays"
   rm -rf "$S" "$V/evidence"; mv "$S-evidence-backup" "$V/evidence"
 }
 trap restore EXIT
